@@ -10,6 +10,36 @@ NOTE_COMMON = ("Trusted: Verus 0.2026.09.13 + Z3; the extractor's logged rewrite
                "std/serde_json stand-ins listed in evidence.coverage.trusted_base (external_body / assume_specification / uninterp); ")
 
 CLAIMED = {
+    "C09": {
+        "text": "Proof, for the REJECTION / ALL-OR-NOTHING-EMISSION SLICE of the property only: the three library entry points every front end goes through (generate: command-line tool; "
+                "generate_with_options: build-script helpers; compile: procedural macros) are verified, for all inputs, to return Err(Parse) and write not one byte when the parser rejects the "
+                "text read, Err(Io) and nothing written when the input cannot be read, and -- when they return Ok -- to have appended exactly the text of the token stream the code generator "
+                "produced for exactly the definition the parser returned, with exactly the caller's options and tosource flag, once; whenever the code generator itself fails nothing is written. "
+                "In every tier a witness search additionally drives the real functions with 236 rejected / unreadable inputs (bounded, not counted as proved). NOT claimed: that "
+                "varlink_to_rust (quote! templates) terminates without panicking for every accepted definition, and that the emitted Rust compiles (rustc on an unbounded family of outputs); "
+                "the thorough tier compiles the generator's output for a finite family of definitions as a bounded stand-in for that half.",
+        "note": NOTE_COMMON + "IDL::try_from and varlink_to_rust are uninterpreted partial functions of their arguments (the parser's duplicate-detection half is unit idl); io::Read::read_to_string / "
+                "io::Write::write_all are stand-in traits with assumed std semantics; `..Default::default()` and `map_err(Error::Parse)` are rewritten to the value / closure they denote (R60, R61); "
+                "the cargo_build_* helpers (file creation, process::exit) and the proc-macro argument parsing are not under contract.",
+        "ref": "5-C09",
+    },
+    "C10": {
+        "category": "exploration",
+        "technique": "BOUNDED exhaustive check of the real layout printer and parser (stand-in: no contract within the verifier's reach expresses the round trip), plus a small "
+                     "contract-based part (Verus/Z3) showing the CLI and Display hand out get_multiline(0, w)",
+        "text": "BOUNDED stand-in, not a proof: the layout printer is format!/String code and the parser a peg expansion, neither within the reach of the installed Verus (no str/format! "
+                "reasoning) or Kani (format! exhausts memory), so the round-trip, idempotence and colour clauses are decided by exhaustive enumeration on the real code up to a stated bound: "
+                "every definition of a finite family (3780 definitions: with/without interface documentation x 3 documentation layouts x every sequence of <= 2 of 18 member templates, "
+                "every <= 3-deep decoration prefix of ?, [], [string] in front of anonymous structs and enums, triples over 6 templates) x every width 0..=100 and 1000: the top-level rendering "
+                "must be accepted by the parser, give the same interface name / documentation / member names in order / field names / types (compared by an independent structural dump), "
+                "re-format to the same bytes, and equal the colored rendering once escape sequences are removed; Display equals the width-80 rendering. The contract-based part (Verus, unbounded) "
+                "covers only: varlink_format (the command-line tool) returns Ok only after printing get_multiline(0, w) / get_multiline_colored(0, w) of exactly the definition parsed from the "
+                "file, w = the columns argument if it parses, else 80, and Display for IDL / VTypeExt / VStructOrEnum / Argument / VEnum write exactly get_multiline(0, 80) / get_oneline().",
+        "note": NOTE_COMMON + "for the bounded part: definitions outside the family and widths above 100 (other than 1000) are not explored; the structural dump and the escape-sequence stripper "
+                "are part of the oracle; for the contract part: get_multiline / get_multiline_colored / get_oneline / the parser are uninterpreted functions, File::open + read_to_string, "
+                "str::parse::<usize>, println! are stand-ins with assumed contracts.",
+        "ref": "5-C10",
+    },
     "C08": {
         "text": "Proof, for ONE GENERATED INSTANCE and the dispatch / stub clauses of the property only: for the code the repository's own generator emits (regenerated from the tree "
                 "under test on every run) for the repository's interface definition org.varlink.certification, the server dispatch hands a request whose method is `<interface>.<Method>` "
@@ -181,8 +211,6 @@ CLAIMED = {
 }
 
 NOT_APPLICABLE = {
-    "C09": "'the emitted Rust compiles' is rustc's type checker applied to an unbounded family of outputs; panic sites are inside syn::parse_str (DESIGN.md section 7)",
-    "C10": "relates the format!/String layout printer to the peg-generated parser; Verus has no str/format! reasoning and Kani exhausts memory on format! (DESIGN.md section 7)",
     "C13": "quantifies over thread schedules and timing of 2..64 OS connections; the installed Verus has no thread model and Kani has no threads (DESIGN.md section 7)",
 }
 
@@ -205,7 +233,7 @@ def main():
                 "evidence_file": "evidence/%s.json" % pid,
                 "replay_cmd_template": "cat {path}",
                 "engine": "verus-units",
-                "level_claimed": {"category": "proof", "text": c["text"], "design_ref": "DESIGN.md section " + c["ref"]},
+                "level_claimed": {"category": c.get("category", "proof"), "text": c["text"], "design_ref": "DESIGN.md section " + c["ref"]},
                 "level_note": c["note"],
                 "technique": c.get("technique", TECH),
             })
